@@ -597,8 +597,30 @@ def sweep_limits():
     return out
 
 
+def sweep_resize():
+    """exits, shrinks and grows in every short order, a supervision pass at every position"""
+    import itertools
+    out = []
+    ops = [['exit', 0, 155], ['exit', 1, -9], ['shrink', 1], ['shrink', 1], ['grow', 1], ['tick']]
+    seen = set()
+    for k in (3, 4):
+        for perm in itertools.permutations(range(len(ops)), k):
+            ev = [ops[i] for i in perm]
+            key = json.dumps(ev)
+            if key in seen:
+                continue
+            seen.add(key)
+            out.append(dict(cfg=dict(n=3), events=ev + [['tick'], ['tick']]))
+    return out[::3]
+
+
+def mon_C01_unresolved(case, obs):
+    return [('C01:job-unresolved-past-hard-limit', w) for s_, w in mon_C05_jobs(case, obs) if s_ == 'C05:not-timed-out-by-scan']
+
+
 SWEEPS = dict(C01=lambda: sweep_loss()[::3] + sweep_limits()[::3], C04=sweep_loss, C05=sweep_limits, C06=sweep_limits,
-              C08=lambda: sweep_loss()[::6], C09=lambda: sweep_loss()[::6])
+              C08=lambda: sweep_loss()[::6], C09=lambda: sweep_loss()[::6] + sweep_resize(),
+              C10=sweep_resize)
 
 
 def pool_check(res, pid, n, focus=None, cfg=None, length=(5, 45), extra_cases=()):
@@ -751,6 +773,7 @@ def mon_known_C07(case, obs):
     return out
 
 
+MONITORS['C01'].append(mon_C01_unresolved)
 MONITORS['C07'] = [mon_known_C07, mon_C01]
 MONITORS['C08'] = [mon_C01]
 
